@@ -214,11 +214,11 @@ func TestReproArrivalOrder(t *testing.T) {
 func TestReproParallelContainerLoadsShareFieldEntry(t *testing.T) {
 	r := newRepro(t, nil)
 	r.m = node.NewModel(10_000)
-	const n = 65536 + 3000
+	const n = 65536 + 12000
 	var batch []node.Point
 	for i := 0; i < n; i++ {
 		batch = append(batch, node.Point{Metric: "m", Timestamp: r.t0 + int64(50+i%12)*10_000 + 1000,
-			Tags:   map[string]string{"uid": fmt.Sprintf("u%d", i), "host": fmt.Sprintf("h%d", i%40)},
+			Tags:   map[string]string{"uid": fmt.Sprintf("u%d", i), "host": fmt.Sprintf("h%d", i%8)},
 			Fields: []node.Field{sum("f", float64(i+1))}})
 		if len(batch) == 4000 || i == n-1 {
 			if _, err := r.n.Write(batch); err != nil {
@@ -228,11 +228,11 @@ func TestReproParallelContainerLoadsShareFieldEntry(t *testing.T) {
 			batch = nil
 		}
 	}
-	bad := 0
 	for round := 0; round < 2; round++ {
-		for h := 0; h < 40; h++ {
+		bad := 0
+		for h := 0; h < 24; h++ {
 			q := &node.Query{Metric: "m", Items: []node.SelectItem{f("f")}, Start: r.t0, End: r.t0 + 3600_000 - 1000, GroupBy: []string{"uid"},
-				Cond: node.TagCmp{Key: "host", Op: "=", Values: []string{fmt.Sprintf("h%d", h)}}}
+				Cond: node.TagCmp{Key: "host", Op: "=", Values: []string{fmt.Sprintf("h%d", h%8)}}}
 			res := r.c.Query(q.SQL())
 			if res.Err != nil || res.Stuck {
 				t.Fatalf("%s -> err=%v stuck=%v", q.SQL(), res.Err, res.Stuck)
@@ -244,7 +244,7 @@ func TestReproParallelContainerLoadsShareFieldEntry(t *testing.T) {
 				}
 			}
 		}
-		fmt.Printf("%d series, 40 queries over the %s: %d wrong\n", n, map[int]string{0: "memory database", 1: "table file"}[round], bad)
+		fmt.Printf("%d series, 24 queries over the %s: %d wrong\n", n, map[int]string{0: "memory database", 1: "table file"}[round], bad)
 		r.n.FlushAll()
 	}
 }
